@@ -859,3 +859,12 @@ impl<S: WebSocket, T: TimestampProvider> Task<S, T> {
         }
     }
 }
+
+#[cfg(all(test, loom, penguin_rs_verif))]
+impl<S: WebSocket, T: TimestampProvider> Task<S, T> {
+    /// Verification hook: lets the loom model in `verif_loom` hand one frame "from the peer"
+    /// to the task's frame handler.
+    pub(crate) async fn verif_process_frame(&self, frame: Frame<'static>) -> Result<()> {
+        self.process_frame(frame, false).await
+    }
+}
